@@ -247,21 +247,27 @@ def _predicates(db, chk, m, preds, DF):
 
 
 def _composite(db, chk, m):
+    """CompositeFilter.__call__ evaluated on three opaque members: the result is member3(member2(member1(df, st), st), st)"""
     f = m.func("CompositeFilter.__call__")
-    loops = [n for n in ast.walk(f) if isinstance(n, ast.For)]
-    ok = False
-    found = []
-    if len(loops) == 1:
-        lp = loops[0]
-        found.append(ast.unparse(lp)[:200])
-        it_ok = H.is_self_attr(lp.iter, "filters") and isinstance(lp.target, ast.Name)
-        body_ok = len(lp.body) == 1 and isinstance(lp.body[0], ast.Assign) and H.name_id(lp.body[0].targets[0]) == "df" and isinstance(lp.body[0].value, ast.Call) \
-            and H.name_id(lp.body[0].value.func) == lp.target.id and [H.name_id(a) for a in lp.body[0].value.args] == ["df", "symbol_table"]
-        rets = [n for n in walk_no_nested(f) if isinstance(n, ast.Return)]
-        ret_ok = len(rets) == 1 and H.name_id(rets[0].value) == "df" and rets[0].lineno > lp.lineno
-        ok = it_ok and body_ok and ret_ok
+    ref = f"{m.name}:CompositeFilter.__call__"
+    DFc = ("param", "CDF")
+    members = [Obj("F1"), Obj("F2"), Obj("F3")]
+    ST = T.P("SYMTAB")
+    I = Interp(db)
+    df0 = Frame(DFc)
+    runs = [r for r in I.explore(ref, lambda I: {"self": Obj("self", cls=(m, "CompositeFilter"), attrs={"filters": list(members)}), "df": df0, "symbol_table": ST}) if r.raised is None]
+    chk.analysed_add("functions", ref)
+    ok, found = None, [f"{len(runs)} paths"]
+    if len(runs) == 1:
+        got = to_term(runs[0].ret)
+        want = to_term(df0)
+        for mem in members:
+            want = ("call", mem.name, want, ST)
+        found = [T.show(got)[:200]]
+        calls = T.find(got, lambda s_: s_[0] == "call" and s_[1] in ("F1", "F2", "F3")) if isinstance(got, tuple) else []
+        ok = True if got == want else (False if calls or got == to_term(df0) else None)
     chk.ob("C18.R5-composite", "CompositeFilter applies its members in order to the running frame, passing the symbol table, and returns the last result", ok, m.loc(f), found=found,
-           accepted="for f in self.filters: df = f(df, symbol_table); return df")
+           accepted="F3(F2(F1(df, symbol_table), symbol_table), symbol_table)")
     stores = H.attr_store_names(f, "self")
     chk.ob("C18.R5-composite", "CompositeFilter.__call__ keeps no state", not stores, m.loc(f), found=sorted(stores), accepted="none")
 
